@@ -86,15 +86,67 @@ pub fn end_name<'a>(content: &'a [u8], cfg: u8, variant: u8, ambiguous: &mut u8)
     }
 }
 
+/// One source construct, from the reference lexer (C01) or from the implementation's own
+/// neutral-configuration run (C16).
+#[derive(Clone, Debug, PartialEq, Eq)]
+pub struct Item {
+    pub kind: Kind,
+    pub content: Vec<u8>,
+    pub name_len: usize,
+    /// offset of the first byte of the construct
+    pub at: u64,
+    /// offset just behind the construct
+    pub after: u64,
+    /// error position observed in the source run (C16: the neutral run), if the item is an error
+    pub err_pos: Option<u64>,
+}
+
+pub struct Fatal {
+    pub err: SyntaxError2,
+    pub err_pos: Option<u64>,
+    pub pos: Option<u64>,
+}
+
+pub fn items_from_lex(s: &[u8], lexed: &Lexed, items: &mut Vec<Item>) -> (Option<Fatal>, u64) {
+    items.clear();
+    for t in &lexed.toks {
+        items.push(Item {
+            kind: t.kind,
+            content: s[t.content.clone()].to_vec(),
+            name_len: t.name_len,
+            at: t.span.start as u64,
+            after: t.span.end as u64,
+            err_pos: None,
+        });
+    }
+    (
+        lexed.fatal.map(|(e, at)| Fatal { err: e, err_pos: Some(at as u64), pos: None }),
+        s.len() as u64,
+    )
+}
+
 /// Builds the expected stream. Returns the mask of interpretation variants that mattered.
 pub fn expected(s: &[u8], lexed: &Lexed, cfg: u8, variant: u8, out: &mut Vec<Exp>) -> u8 {
+    let mut items = Vec::new();
+    let (fatal, len) = items_from_lex(s, lexed, &mut items);
+    expected_from_items(&items, fatal.as_ref(), Some(len), cfg, variant, out)
+}
+
+pub fn expected_from_items(
+    items: &[Item],
+    fatal: Option<&Fatal>,
+    final_pos: Option<u64>,
+    cfg: u8,
+    variant: u8,
+    out: &mut Vec<Exp>,
+) -> u8 {
     out.clear();
     let mut ambiguous = 0u8;
     let mut stack = TagStack::default();
-    for t in &lexed.toks {
-        let content = &s[t.content.clone()];
-        let after = t.span.end as u64;
-        let at = t.span.start as u64;
+    for t in items {
+        let content = &t.content[..];
+        let after = t.after;
+        let at = t.at;
         match t.kind {
             Kind::Text => {
                 let mut c = content;
@@ -157,16 +209,16 @@ pub fn expected(s: &[u8], lexed: &Lexed, cfg: u8, variant: u8, out: &mut Vec<Exp
             Kind::Decl => out.push(Exp { ev: Ev::Decl(content.to_vec()), pos: Some(after), err_pos: None }),
             Kind::PI => out.push(Exp { ev: Ev::PI(content.to_vec(), t.name_len), pos: Some(after), err_pos: None }),
             Kind::MissingDoctypeName => {
-                out.push(Exp { ev: Ev::Err(E::MissingDoctypeName), pos: Some(after), err_pos: None })
+                out.push(Exp { ev: Ev::Err(E::MissingDoctypeName), pos: Some(after), err_pos: t.err_pos })
             }
         }
     }
-    match lexed.fatal {
-        Some((e, at)) => {
-            out.push(Exp { ev: Ev::Err(E::Syntax(e)), pos: None, err_pos: Some(at as u64) });
-            out.push(Exp { ev: Ev::Eof, pos: None, err_pos: Some(at as u64) });
+    match fatal {
+        Some(f) => {
+            out.push(Exp { ev: Ev::Err(E::Syntax(f.err)), pos: f.pos, err_pos: f.err_pos });
+            out.push(Exp { ev: Ev::Eof, pos: f.pos, err_pos: f.err_pos });
         }
-        None => out.push(Exp { ev: Ev::Eof, pos: Some(s.len() as u64), err_pos: None }),
+        None => out.push(Exp { ev: Ev::Eof, pos: final_pos, err_pos: None }),
     }
     ambiguous
 }
